@@ -220,6 +220,25 @@ def main(argv: List[str]) -> int:
                     ob(not shared, f"frame:hook:{nm}:shared-state", f"hook {nm} reads the module-level mutable {sorted(shared)}: converters are no longer independent", hook=nm)
                     outer_mut = {f for f in free if f in local_assigned and f not in ("converter",) and not f[:1].isupper() and f not in ("structure_hooks",)}
                     ob(True, "", "")
+    # 2b. no function of the runtime package flips a switch that belongs to the whole process (it would reach every other converter, the
+    #     class constructors and every other thread): attrs' validator switch, interpreter limits, logging / warnings configuration, ...
+    GLOBAL_SWITCHES = {
+        "set_disabled": "attrs.validators.set_disabled", "disabled": "attrs.validators.disabled", "set_run_validators": "attr.set_run_validators",
+        "setrecursionlimit": "sys.setrecursionlimit", "setswitchinterval": "sys.setswitchinterval", "settrace": "sys.settrace", "setprofile": "sys.setprofile",
+        "basicConfig": "logging.basicConfig", "simplefilter": "warnings.simplefilter", "filterwarnings": "warnings.filterwarnings", "setlocale": "locale.setlocale",
+        "seed": "random.seed", "set_int_max_str_digits": "sys.set_int_max_str_digits",
+    }
+    for mod in (hooks, conv):
+        hits = []
+        for node in ast.walk(mod.tree):
+            if isinstance(node, ast.Call) and isinstance(node.func, ast.Attribute) and node.func.attr in GLOBAL_SWITCHES:
+                base = ast.unparse(node.func.value)
+                if node.func.attr in ("disabled", "seed") and not any(w in base for w in ("validators", "random")):
+                    continue
+                if node.func.attr == "disable" and "logging" not in base:
+                    continue
+                hits.append((node.lineno, ast.unparse(node.func)))
+        ob(not hits, f"frame:{mod.rel.split('/')[-1]}:process-global-switch", f"{mod.rel.split('/')[-1]} calls {sorted({h[1] for h in hits})} (line {hits[0][0] if hits else 0}): a switch of the whole process - other converters, the class constructors and other threads see it while it is flipped", calls=hits)
     # 3. get_converter / register_hooks mutate only their argument
     reg = next((f for f in hooks.tree.body if isinstance(f, ast.FunctionDef) and f.name == "register_hooks"), None)
     ob(reg is not None, "frame:register_hooks:exists", "register_hooks missing")
@@ -317,6 +336,18 @@ def main(argv: List[str]) -> int:
             ob(norm(alone.get("nodetail")) == norm(alone.get("fresh")), "config:nodetail:results", f"a converter built on cattrs.Converter(detailed_validation=False) gives another result than a fresh one for the same input: {_first_delta(norm(alone.get('fresh')), norm(alone.get('nodetail')))}", found=True, configuration="nodetail", replay=f"tools/c19_probe.py '{json.dumps({'history': ['nodetail'], 'report': [0]})}'")
         if kind == "count":
             ob(r["0"] == alone["fresh"] and r["4"] == alone["fresh"], "history:count", f"the fifth fresh converter differs from the first: {_first_delta(alone['fresh'], r['4'])}", found=True)
+    # ------------------------------------------------------------------ (d2) a converter of each configuration is IN USE on another thread
+    dur = probe({"during": {"kinds": ["fresh", "nodetail", "forbid", "omitdefault"]}})
+    hist_runs += 1
+    if "error" in dur:
+        run.crash(f"during-use probe failed: {dur['error'][:300]}")
+    else:
+        for kind, r in sorted(dur.get("during", {}).items()):
+            conf = kind if not kind.startswith("kw:") else f"get_converter({kind[3:]})"
+            if not r.get("parked"):
+                run.notes.append(f"during-use probe: the '{conf}' converter did not reach its input through a dict access; no overlap was produced")
+            ob(r.get("B_during") == alone.get("fresh"), f"during-use:{kind}", f"while another thread is inside structure() of a '{conf}' converter, a fresh converter (and the class constructors) behave differently: {_first_delta(alone.get('fresh'), r.get('B_during'))}", found=True, configuration=conf, replay=f"tools/c19_probe.py '{json.dumps({'during': {'kinds': [kind] if not kind.startswith('kw:') else []}})}'")
+            ob(r.get("B_after") == alone.get("fresh"), f"after-use:{kind}", f"after a '{conf}' converter was used on another thread, a fresh converter (and the class constructors) behave differently: {_first_delta(alone.get('fresh'), r.get('B_after'))}", found=True, configuration=conf)
     # ------------------------------------------------------------------ (e) bounded schedule exploration: one pre-emption at the k-th line event inside lsprotocol (thorough: all points; quick: a sample)
     pre = probe({"history": ["fresh", "fresh"], "report": [], "preempt": {"point": 10**9}})
     total_events = pre.get("events_seen", 0)
